@@ -141,7 +141,8 @@ theorem value_lemma (t : Item) (ht : t.ok = true) (f : Nat) (q : P) (rest : Byte
     congr 2
     simp [withEvs, addEvs, pushLen, pushState]
   | .arrIndef xs =>
-    simp only [Item.ok] at ht
+    simp only [Item.ok, Bool.and_eq_true] at ht
+    replace ht := ht.2
     simp only [Item.wire, List.cons_append, List.append_assoc, cost, Item.events]
     have hib : (0x9f : UInt8) = ib 4 31 := by decide
     rw [hib, stepValue_sub q 4 (Or.inl rfl) 31 (by omega), ofNat_128, initSub_indef]
@@ -190,7 +191,8 @@ theorem value_lemma (t : Item) (ht : t.ok = true) (f : Nat) (q : P) (rest : Byte
     congr 2
     simp [withEvs, addEvs, pushLen, pushState]
   | .mapIndef ms =>
-    simp only [Item.ok] at ht
+    simp only [Item.ok, Bool.and_eq_true] at ht
+    replace ht := ht.2
     simp only [Item.wire, List.cons_append, List.append_assoc, cost, Item.events]
     have hib : (0xbf : UInt8) = ib 5 31 := by decide
     rw [hib, stepValue_sub q 5 (Or.inr rfl) 31 (by omega), ofNat_160, initSub_indef]
